@@ -30,18 +30,18 @@ CurveOf(c) == IF c.kind = "hwmon" THEN 0 ELSE 250
 
 Init == \E c \in Cfgs, th \in Thetas, a0 \in Priors :
           /\ CInit(c, 0, 1, a0)
-          /\ touched = FALSE /\ zeros = 0
+          /\ touched = FALSE /\ zeros = 0 /\ H4Init
           /\ theta = th /\ phase = "any" /\ polls = 0 /\ spun = 0
 
 Reading == IF pwm > theta THEN 1000 ELSE 0
 
 Poll == /\ phase = "any" /\ status = "Regulating"
-        /\ MeasureRpm(Reading, TRUE) /\ HRpm(Reading)
+        /\ MeasureRpm(Reading, TRUE) /\ HRpm(Reading) /\ H4Keep
         /\ phase' = "cycle" /\ polls' = polls + 1
         /\ spun' = IF Reading > 0 THEN spun + 1 ELSE spun
         /\ theta' = theta
 
-Cyc == /\ CycleAlg(CurveOf(cfg), 200) /\ HCycle
+Cyc == /\ CycleAlg(CurveOf(cfg), 200) /\ HCycle /\ H4Keep
        /\ phase' = "any"
        /\ UNCHANGED <<theta, polls, spun>>
 
